@@ -135,7 +135,35 @@ FrameImage(prog) ==
       Sec(Dot(<<100, 101, 98, 117, 103, 95, 105, 110, 102, 111>>), N(1), Z, Z, <<8, 0, 0, 0, 4, 0, 0, 0, 0, 0, 8, 1>>, N(12), Z, Z, N(1), Z),
       Sec(Dot(<<100, 101, 98, 117, 103, 95, 97, 98, 98, 114, 101, 118>>), N(1), Z, Z, <<1, 17, 0, 0, 0, 0>>, N(6), Z, Z, N(1), Z)>>]
 
+\* ---- location expression operations (DWARF5 2.5, 7.7.1): a DWARF4 unit whose only variable carries DW_AT_location (exprloc)
+\* with a one-operation expression.  Operand bytes written here (ULEB/SLEB by hand).
+OpItems == <<
+  <<"addr", <<3, 0, 16, 64, 0, 0, 0, 0, 0>>>>, <<"deref", <<6>>>>, <<"const1u", <<8, 200>>>>, <<"const1s", <<9, 200>>>>,
+  <<"const2u", <<10, 1, 128>>>>, <<"const2s", <<11, 1, 128>>>>, <<"const4u", <<12, 1, 0, 0, 128>>>>, <<"const4s", <<13, 1, 0, 0, 128>>>>,
+  <<"const8u", <<14, 1, 0, 0, 0, 0, 0, 0, 128>>>>, <<"const8s", <<15, 1, 0, 0, 0, 0, 0, 0, 128>>>>,
+  <<"constu", <<16, 229, 142, 38>>>>, <<"consts", <<17, 155, 241, 89>>>>, <<"dup", <<18>>>>, <<"drop", <<19>>>>, <<"over", <<20>>>>,
+  <<"pick", <<21, 3>>>>, <<"swap", <<22>>>>, <<"rot", <<23>>>>, <<"xderef", <<24>>>>, <<"abs", <<25>>>>, <<"and", <<26>>>>, <<"div", <<27>>>>,
+  <<"minus", <<28>>>>, <<"mod", <<29>>>>, <<"mul", <<30>>>>, <<"neg", <<31>>>>, <<"not", <<32>>>>, <<"or", <<33>>>>, <<"plus", <<34>>>>,
+  <<"plus_uconst", <<35, 128, 1>>>>, <<"shl", <<36>>>>, <<"shr", <<37>>>>, <<"shra", <<38>>>>, <<"xor", <<39>>>>,
+  <<"bra", <<40, 4, 0>>>>, <<"eq", <<41>>>>, <<"ge", <<42>>>>, <<"gt", <<43>>>>, <<"le", <<44>>>>, <<"lt", <<45>>>>, <<"ne", <<46>>>>,
+  <<"skip", <<47, 252, 255>>>>, <<"lit0", <<48>>>>, <<"lit17", <<65>>>>, <<"lit31", <<79>>>>, <<"reg0", <<80>>>>, <<"reg6", <<86>>>>, <<"reg31", <<111>>>>,
+  <<"breg0", <<112, 8>>>>, <<"breg7", <<119, 120>>>>, <<"breg31", <<143, 128, 127>>>>, <<"regx", <<144, 33>>>>,
+  <<"bregx", <<146, 33, 124>>>>, <<"piece", <<80, 147, 4>>>>, <<"deref_size", <<148, 4>>>>, <<"xderef_size", <<149, 2>>>>, <<"nop", <<150>>>>,
+  <<"push_object_address", <<151>>>>, <<"call2", <<152, 11, 0>>>>, <<"call4", <<153, 11, 0, 0, 0>>>>, <<"call_ref", <<154, 11, 0, 0, 0>>>>,
+  <<"form_tls_address", <<155>>>>, <<"call_frame_cfa", <<156>>>>, <<"bit_piece", <<80, 157, 8, 2>>>>, <<"implicit_value", <<158, 2, 1, 2>>>>,
+  <<"stack_value", <<48, 159>>>>, <<"GNU_push_tls_address", <<224>>>>, <<"GNU_uninit", <<80, 240>>>>,
+  <<"GNU_entry_value", <<243, 1, 85>>>>, <<"entry_value", <<163, 1, 85>>>>, <<"GNU_implicit_pointer", <<242, 11, 0, 0, 0, 4>>>>,
+  <<"implicit_pointer", <<160, 11, 0, 0, 0, 4>>>>, <<"GNU_parameter_ref", <<250, 11, 0, 0, 0>>>> >>
+OpInfo(expr) == LET body == <<4, 0, 0, 0, 0, 0, 8, 1, 2, Len(expr)>> \o expr \o <<0>> IN LEn(Len(body), 4) \o body
+OpImage(expr) ==
+  [Base(<<64, TRUE>>, X64) EXCEPT !.secs = <<TextSec(64),
+      Sec(Dot(<<100, 101, 98, 117, 103, 95, 105, 110, 102, 111>>), N(1), Z, Z, OpInfo(expr), N(Len(OpInfo(expr))), Z, Z, N(1), Z),
+      \* abbreviations: 1 DW_TAG_compile_unit with children, no attributes; 2 DW_TAG_variable, DW_AT_location DW_FORM_exprloc
+      Sec(Dot(<<100, 101, 98, 117, 103, 95, 97, 98, 98, 114, 101, 118>>), N(1), Z, Z, <<1, 17, 1, 0, 0, 2, 52, 0, 2, 24, 0, 0, 0>>, N(13), Z, Z, N(1), Z)>>]
+
 Items ==
+  {[tag |-> "dw_op", name |-> OpItems[i][1], opt |-> "--debug-dump=info", im |-> OpImage(OpItems[i][2])] : i \in 1..Len(OpItems)}
+  \cup
   {[tag |-> "dw_cfa", name |-> CfaItems[i][1], opt |-> o, im |-> FrameImage(CfaItems[i][2])] :
       i \in 1..Len(CfaItems), o \in {"--debug-dump=frames", "--debug-dump=frames-interp"}}
   \cup
